@@ -198,7 +198,7 @@ func runNAVCOMMIT(c *Ctx) {
 				c.OK(P.InstrPos(h.call), fmt.Sprintf("%s: state changed before fallible %s", ir.FuncName(fn), n), "the error edge of the call stores the changed locations back before returning (undo)", false)
 				continue
 			}
-			if why, ok := navExceptions[ir.FuncName(fn)]; ok {
+			if why, ok := navExceptions[ir.FuncName(fn)]; ok && navExceptionHolds(fn, h.call) {
 				c.OK(P.InstrPos(h.call), fmt.Sprintf("%s: state changed before fallible %s", ir.FuncName(fn), n), "exception (idempotent under retry): "+why, false)
 				continue
 			}
@@ -462,4 +462,74 @@ func compensated(fn *ssa.Function, call ssa.CallInstruction, effs []Effect) bool
 		}
 	}
 	return true
+}
+
+// navExceptionHolds: the structural premise of a tabled exception, checked on the current code. The exceptions say
+// "a retry resumes from the partial progress": that is only true while the path is never *shorter* at a failing
+// step than the retry needs — whatever was popped since the function began has been pushed back (by an append to
+// the path) on every path to the fallible call.
+func navExceptionHolds(fn *ssa.Function, call ssa.CallInstruction) bool {
+	var pops []ssa.Instruction
+	isPush := func(i ssa.Instruction) bool {
+		st, ok := i.(*ssa.Store)
+		if !ok || !isCursorPath(st.Addr) {
+			return false
+		}
+		ap, ok := st.Val.(*ssa.Call)
+		if !ok {
+			return false
+		}
+		b, ok := ap.Call.Value.(*ssa.Builtin)
+		return ok && b.Name() == "append"
+	}
+	for _, b := range fn.Blocks {
+		for _, ins := range b.Instrs {
+			st, ok := ins.(*ssa.Store)
+			if !ok || !isCursorPath(st.Addr) {
+				continue
+			}
+			if sl, ok := st.Val.(*ssa.Slice); ok && sl.High != nil {
+				pops = append(pops, st)
+			}
+		}
+	}
+	for _, pop := range pops {
+		if !ir.InstrReaches(pop, call) {
+			continue
+		}
+		// every path from the pop to the call passes a push
+		if !mustPassBetween(pop, call, isPush) {
+			return false
+		}
+	}
+	return true
+}
+
+// mustPassBetween: every path from instruction a to instruction b (a reaches b) contains an instruction satisfying pred.
+func mustPassBetween(a, b ssa.Instruction, pred func(ssa.Instruction) bool) bool {
+	// search forward from a for b, stopping at pred; if b is found, some path avoids pred
+	seen := map[*ssa.BasicBlock]bool{}
+	var walk func(blk *ssa.BasicBlock, from int) bool // true = reached b without passing pred
+	walk = func(blk *ssa.BasicBlock, from int) bool {
+		for i := from; i < len(blk.Instrs); i++ {
+			ins := blk.Instrs[i]
+			if ins == b {
+				return true
+			}
+			if pred(ins) {
+				return false
+			}
+		}
+		for _, s := range blk.Succs {
+			if seen[s] {
+				continue
+			}
+			seen[s] = true
+			if walk(s, 0) {
+				return true
+			}
+		}
+		return false
+	}
+	return !walk(a.Block(), ir.InstrIndex(a)+1)
 }
